@@ -214,7 +214,10 @@ func (l *WAL) Open() error {
 			os.Remove(lastSegment)
 			segments = segments[:len(segments)-1]
 		} else {
-			fd, err := os.OpenFile(lastSegment, os.O_RDWR, 0666)
+			// Open in append mode: the cache loader may truncate a corrupt tail of
+			// this segment after it has been opened here, and later writes must
+			// land at the new end of the file, not at the stale offset.
+			fd, err := os.OpenFile(lastSegment, os.O_RDWR|os.O_APPEND, 0666)
 			if err != nil {
 				return err
 			}
